@@ -204,7 +204,7 @@ def pyval(v):
 
 def apply_op(root, op):
     """op = [name, target path, i, i2, key, key2, flag, vals]; returns the exception class name or ''"""
-    name, tp, i, i2, key, key2, flag, vals = op
+    name, tp, i, i2, key, key2, flag, vals = op[:8]
     try:
         tgt = root if not tp else root.ayns.get_node(list(tp))
         if name == "l.setitem":
@@ -451,7 +451,8 @@ _W = {}
 
 def _replay_chunk(args):
     lines, starts = args
-    res = {"n": 0, "ok": 0, "known": 0, "drift": 0, "viol": 0, "nontrivial": 0, "bad": [], "knownf": {}, "steps": 0, "sample": None}
+    res = {"n": 0, "ok": 0, "known": 0, "drift": 0, "viol": 0, "nontrivial": 0, "bad": [], "knownf": {}, "steps": 0, "sample": None,
+           "popitem_agree": 0}
     for ln in lines:
         j = json.loads(ln)
         res["n"] += 1
@@ -460,6 +461,8 @@ def _replay_chunk(args):
         res[status] += 1
         if j["ops"] and j["e"] == "":
             res["nontrivial"] += 1
+        if j["ops"] and j["ops"][-1][0] == "d.popitem" and j["e"] == "TypeError" and status in ("ok", "known"):
+            res["popitem_agree"] += 1
         if status == "known":
             for f in info["fired"]:
                 slot = res["knownf"].setdefault(f, [0, None])
@@ -486,21 +489,24 @@ def emit_lines(out):
     return res
 
 
-def replay_all(lines, pool):
+def replay_start(lines, pool):
     """lines: JSON texts of behaviours.  Start trees come from the lines with an empty history."""
     starts = {}
-    rest = []
     for ln in lines:
         if '"ops":[]' in ln:
             j = json.loads(ln)
             starts[j["st"]] = j["s"]
-        rest.append(ln)
-    n = len(rest)
-    chunk = max(200, min(4000, n // 64 + 1))
-    chunks = [(rest[i:i + chunk], starts) for i in range(0, n, chunk)]
-    agg = {"n": 0, "ok": 0, "known": 0, "drift": 0, "viol": 0, "nontrivial": 0, "bad": [], "knownf": {}, "steps": 0, "samples": []}
-    for r in pool.imap_unordered(_replay_chunk, chunks):
-        for k in ("n", "ok", "known", "drift", "viol", "nontrivial", "steps"):
+    n = len(lines)
+    chunk = max(200, min(3000, n // 64 + 1))
+    return starts, pool.map_async(_replay_chunk, [(lines[i:i + chunk], starts) for i in range(0, n, chunk)])
+
+
+def replay_finish(started, timeout):
+    starts, res = started
+    agg = {"n": 0, "ok": 0, "known": 0, "drift": 0, "viol": 0, "nontrivial": 0, "bad": [], "knownf": {}, "steps": 0, "samples": [],
+           "popitem_agree": 0}
+    for r in res.get(timeout=timeout):
+        for k in ("n", "ok", "known", "drift", "viol", "nontrivial", "steps", "popitem_agree"):
             agg[k] += r[k]
         agg["bad"].extend(r["bad"])
         for f, (cnt, wit) in r["knownf"].items():
@@ -519,7 +525,7 @@ def minimal_bad(bad):
     keyset = {(st, json.dumps(ops)) for _, st, ops, _ in bad}
     out = []
     for status, st, ops, info in bad:
-        if any((st, json.dumps(ops[:k])) in keyset for k in range(1, len(ops))):
+        if any((st, json.dumps(ops[:k])) in keyset for k in range(0, len(ops))):
             continue
         out.append((status, st, ops, info))
     return out
@@ -550,36 +556,59 @@ def cfg_container(sw, idx, ren, keys, newkeys, kinds, ops, starts, tgt, maxlen, 
 PROP_INVS = ["Inv_" + x for x in INVS] + ["Inv_NoDeviation"]
 
 
+def active_switches():
+    """the deviation switches that describe the library as it is: all of them, minus those whose finding is recorded as
+    fixed in known_findings.json (entry with "deviation": <switch>, "kind": "fixed"), minus C17_SWITCHES_OFF=a,b (used to
+    try a proposed fix in a scratch worktree)"""
+    on = list(SWITCHES)
+    try:
+        for f in json.load(open(os.path.join(VERIF, "known_findings.json")))["findings"]:
+            devs = f.get("deviation") or ""
+            for d in [x.strip() for x in devs.replace(";", ",").split(",")]:
+                if d in on and f.get("kind") == "fixed":
+                    on.remove(d)
+    except Exception:
+        pass
+    for d in os.environ.get("C17_SWITCHES_OFF", "").split(","):
+        if d.strip() in on:
+            on.remove(d.strip())
+    return on
+
+
 def universes(tier):
     """(name, kwargs) - the operation alphabets TLC enumerates completely"""
     K4 = ["a", "b", "c", "_x"]
     U = []
     if tier == "quick":
-        U.append(("list-L3-edge", dict(idx="IdxEdge", ren="RenEdge", keys=K4, newkeys=["z"], kinds=["S"], ops="ListOps",
+        U.append(("list-L3-edge", dict(idx="IdxEdge", ren="RenTwo", keys=K4, newkeys=["z"], kinds=["S"], ops="ListOpsCore",
                                        starts=[1], tgt="root", maxlen=3, upd="UpdOne")))
-        U.append(("list-L2-full", dict(idx="IdxFull", ren="RenFull", keys=K4, newkeys=["z"], kinds=["S", "L"], ops="ListOps",
-                                       starts=[1, 2], tgt="root", maxlen=2, upd="UpdOne")))
-        U.append(("dict-L3", dict(idx="IdxEdge", ren="RenEdge", keys=K4, newkeys=["z"], kinds=["S"], ops="DictOps",
+        U.append(("dict-L3", dict(idx="IdxEdge", ren="RenEdge", keys=K4, newkeys=["z"], kinds=["S"], ops="DictOpsCore",
                                   starts=[3], tgt="root", maxlen=3, upd="UpdOne")))
+        U.append(("list-L2-full", dict(idx="IdxFull", ren="RenNine", keys=K4, newkeys=["z"], kinds=["S", "L"], ops="ListOps",
+                                       starts=[1, 2], tgt="root", maxlen=2, upd="UpdOne")))
         U.append(("dict-L2-full", dict(idx="IdxEdge", ren="RenEdge", keys=K4, newkeys=["a", "z"], kinds=["S", "D"], ops="DictOps",
                                        starts=[3, 4], tgt="root", maxlen=2, upd="UpdFull")))
-        U.append(("nested-L2", dict(idx="IdxSmall", ren="RenEdge", keys=["a", "c", "_x"], newkeys=["z"], kinds=["S"], ops="AllOps",
+        U.append(("nested-L2", dict(idx="IdxSmall", ren="RenTwo", keys=["a", "c", "_x"], newkeys=["z"], kinds=["S"], ops="AllOps",
                                     starts=[5, 6], tgt="kids", maxlen=2, upd="UpdOne")))
     else:
-        U.append(("list-L3-full", dict(idx="IdxFull", ren="RenEdge", keys=K4, newkeys=["z"], kinds=["S", "L"], ops="ListOps",
+        U.append(("list-L3-full", dict(idx="IdxFull", ren="RenEdge", keys=K4, newkeys=["z"], kinds=["S"], ops="ListOps",
                                        starts=[1], tgt="root", maxlen=3, upd="UpdOne")))
-        U.append(("list-L4-edge", dict(idx="IdxEdge4", ren="RenEdge2", keys=K4, newkeys=["z"], kinds=["S"], ops="ListOps",
+        U.append(("list-L4-edge", dict(idx="IdxEdge4", ren="RenEdge2", keys=K4, newkeys=["z"], kinds=["S"], ops="ListOpsL4",
                                        starts=[7], tgt="root", maxlen=4, upd="UpdOne")))
+        U.append(("dict-L4", dict(idx="IdxEdge", ren="RenEdge", keys=["a", "b", "_x"], newkeys=["z"], kinds=["S"], ops="DictOpsL4",
+                                  starts=[8], tgt="root", maxlen=4, upd="UpdOne")))
+        U.append(("dict-L3-full", dict(idx="IdxEdge", ren="RenEdge", keys=K4, newkeys=["a", "z"], kinds=["S"], ops="DictOps",
+                                       starts=[3], tgt="root", maxlen=3, upd="UpdFull")))
+        U.append(("nested-L3", dict(idx="IdxNest", ren="RenTwo", keys=["a", "_x"], newkeys=["z"], kinds=["S"], ops="AllOps",
+                                    starts=[5, 6], tgt="kids", maxlen=3, upd="UpdOne")))
         U.append(("list-L2-full", dict(idx="IdxFull", ren="RenFull", keys=K4, newkeys=["z"], kinds=["S", "L"], ops="ListOps",
                                        starts=[1, 2], tgt="root", maxlen=2, upd="UpdOne")))
-        U.append(("dict-L3-full", dict(idx="IdxEdge", ren="RenEdge", keys=K4, newkeys=["a", "z"], kinds=["S", "D"], ops="DictOps",
-                                       starts=[3], tgt="root", maxlen=3, upd="UpdFull")))
-        U.append(("dict-L4", dict(idx="IdxEdge", ren="RenEdge", keys=["a", "b", "_x"], newkeys=["z"], kinds=["S"], ops="DictOps",
-                                  starts=[8], tgt="root", maxlen=4, upd="UpdOne")))
-        U.append(("dict-shadow-L2", dict(idx="IdxEdge", ren="RenEdge", keys=K4 + ["clear"], newkeys=["z"], kinds=["S"], ops="DictOps",
+        U.append(("dict-L2-full", dict(idx="IdxEdge", ren="RenEdge", keys=K4 + ["clear"], newkeys=["a", "z"], kinds=["S", "D"], ops="DictOps",
+                                       starts=[3, 4], tgt="root", maxlen=2, upd="UpdFull")))
+        U.append(("dict-shadow-L2", dict(idx="IdxEdge", ren="RenEdge", keys=["a", "_x", "clear"], newkeys=["z"], kinds=["S"], ops="DictOps",
                                          starts=[3, 4], tgt="root", maxlen=2, upd="UpdShadow")))
-        U.append(("nested-L3", dict(idx="IdxSmall", ren="RenEdge", keys=["a", "c", "_x"], newkeys=["z"], kinds=["S"], ops="AllOps",
-                                    starts=[5, 6], tgt="both", maxlen=3, upd="UpdOne")))
+        U.append(("nested-both-L2", dict(idx="IdxSmall", ren="RenTwo", keys=["a", "c", "_x"], newkeys=["z"], kinds=["S"], ops="AllOps",
+                                         starts=[5, 6], tgt="both", maxlen=2, upd="UpdOne")))
     return U
 
 
@@ -642,6 +671,7 @@ def _path_chunk(lines):
         r = judge_path(j)
         if r:
             r["kind"] = j["kind"]
+            r["case"] = j
             bad.append(r)
     return len(lines), bad
 
@@ -751,7 +781,7 @@ def gen_op(rng, root, fresh):
 
 
 def op_record(op):
-    return {"op": op[0], "t": op[1], "i": op[2], "i2": op[3], "key": op[4], "key2": op[5], "flag": op[6],
+    return {"op": op[0], "t": op[1], "tk": ["l" if isinstance(c, int) else "d" for c in op[1]], "i": op[2], "i2": op[3], "key": op[4], "key2": op[5], "flag": op[6],
             "vals": [{"t": v[0], "n": v[1], "k": v[2]} for v in op[7]]}
 
 
@@ -795,8 +825,9 @@ def _record_chunk(args):
     return [json.dumps(record_trace(t, base * 1000003 + t, maxlen)) for t in tids]
 
 
-def cfg_trace():
-    lines = ["INIT TInit", "NEXT TStep", "CONSTANTS"] + [f"  {s} = TRUE" for s in SWITCHES]
+def cfg_trace(on=None):
+    on = SWITCHES if on is None else on
+    lines = ["INIT TInit", "NEXT TNext", "CONSTANTS"] + [f"  {s} = {'TRUE' if s in on else 'FALSE'}" for s in SWITCHES]
     lines += ["INVARIANT Report", "CHECK_DEADLOCK FALSE"]
     return "\n".join(lines) + "\n"
 
@@ -821,7 +852,7 @@ def write_replay(kind, payload):
 def describe(start, ops):
     heap = heap_of(start)
     txt = [f"x = ConfigNode({literal(heap, ROOT_ID)!r})"]
-    for name, tp, i, i2, key, key2, flag, vals in ops:
+    for name, tp, i, i2, key, key2, flag, vals in [o[:8] for o in ops]:
         tgt = "x" if not tp else f"x.ayns.get_node({list(tp)!r})"
         v = [pyval(z) for z in vals]
         call = {"l.setitem": lambda: f"{tgt}[{i}] = {v[0]!r}", "l.delitem": lambda: f"del {tgt}[{i}]",
@@ -877,9 +908,14 @@ def run_replay(path):
 # --------------------------------------------------------------------------------------------------
 # the check
 # --------------------------------------------------------------------------------------------------
-def _tlc(module, cfg, name, workers, timeout, env=None, simulate=None, depth=None, seed=None):
+def _tlc(module, cfg, name, workers, timeout, env=None, simulate=None, depth=None, seed=None, trace_file=None):
     wd = tlc.workdir("C17_" + name.replace("/", "_"))
     try:
+        if trace_file:
+            tf = os.path.join(wd, "traces.ndjson")
+            with open(tf, "w") as f:
+                f.write(trace_file)
+            env = dict(env or {}, TRACE_FILE=tf)
         r = tlc.run(module, cfg, wd, workers=workers, timeout=timeout, env=env, simulate=simulate, depth=depth, seed=seed,
                     heap="6g")
         r["name"] = name
@@ -889,8 +925,14 @@ def _tlc(module, cfg, name, workers, timeout, env=None, simulate=None, depth=Non
             tlc.cleanup(wd)
 
 
+def _ops_of_trace(tr, k):
+    return [[e["op"]["op"], e["op"]["t"], e["op"]["i"], e["op"]["i2"], e["op"]["key"], e["op"]["key2"], e["op"]["flag"],
+             [[z["t"], z["n"], z["k"]] for z in e["op"]["vals"]]] for e in tr["ev"][:k]]
+
+
 def run(prop, tier, seed, replay, keep):
     import multiprocessing as mp
+    from concurrent.futures import as_completed
     _W["keep"] = keep
     os.environ["AY_REPO"] = REPO
     if replay:
@@ -899,46 +941,73 @@ def run(prop, tier, seed, replay, keep):
                 "summary": {"replayed": 1}}
     t0 = time.time()
     quick = tier == "quick"
-    ctx = mp.get_context("fork")
-    pool = ctx.Pool(16)
+    rdir = os.path.join(VERIF, "replays", PROP)     # replay files are per run
+    if os.path.isdir(rdir):
+        for fn in os.listdir(rdir):
+            if fn.endswith(".json"):
+                os.remove(os.path.join(rdir, fn))
+    pool = mp.get_context("fork").Pool(16)
     violations, known_hits, drift = [], {}, 0
     cov = {"configs": [], "mutations": [], "states": 0, "transitions": 0, "traces_validated_against_impl": 0, "samples": [],
            "evaluations": 0, "distinct_nontrivial": 0, "exhaustive": True}
+    ntr = 1500 if quick else 8000
+    maxlen = 12
+    tmo = 400 if quick else 1700
     try:
-        # ---------------- direction B recording starts first (pure python, runs while TLC explores)
-        ntr = 1500 if quick else 20000
-        maxlen = 12
-        per = 100
-        rec_jobs = [(list(range(a, min(a + per, ntr + 1))), seed, maxlen) for a in range(1, ntr + 1, per)]
-        rec_async = pool.map_async(_record_chunk, rec_jobs)
+        # direction B recording starts first (pure python; runs while TLC explores)
+        per = 50
+        rec_async = pool.map_async(_record_chunk, [(list(range(a, min(a + per, ntr + 1))), seed, maxlen) for a in range(1, ntr + 1, per)])
 
-        # ---------------- TLC: intended machine (all switches off) satisfies the property; as-is machine printed
         U = universes(tier)
-        jobs = []
-        wk = 4 if quick else 8
-        tmo = 400 if quick else 1500
-        for name, kw in U:
-            jobs.append(("intended/" + name, "MC_AyContainer", cfg_container(set(), invariants=PROP_INVS, emit=False, **kw), wk, None, None))
-            jobs.append(("asis/" + name, "MC_AyContainer", cfg_container(set(SWITCHES), invariants=[], emit=True, **kw), wk, None, None))
+        ON = active_switches()
+        wk = 4 if quick else 6
+        jobs = []   # (name, module, cfg, workers, simulate, depth)
+        for name, kw in U:      # the universes are listed largest first
+            jobs.append(("asis/" + name, "MC_AyContainer", cfg_container(set(ON), invariants=[], emit=True, **kw), wk, None, None))
+            jobs.append(("intended/" + name, "MC_AyContainer",
+                         cfg_container(set(), invariants=["Inv_Property", "Inv_NoDeviation"], emit=False, **kw), wk, None, None))
+        jobs.insert(4, ("trace", "Trace_AyContainer", cfg_trace(ON), 8, None, None))
+        if not quick:
+            jobs.insert(2, ("asis/simulate-L8", "MC_AyContainer",
+                            cfg_container(set(ON), invariants=[], emit=True, idx="IdxFull", ren="RenEdge", keys=["a", "b", "c", "_x"],
+                                          newkeys=["a", "z"], kinds=["S", "L", "D"], ops="AllOps", starts=[1, 3, 5, 6], tgt="both", maxlen=8,
+                                          upd="UpdFull"), 6, "num=6000", 10))
         for sw, invs, kw in MUTATIONS:
-            jobs.append(("mutation/" + sw, "MC_AyContainer", cfg_container({sw}, invariants=PROP_INVS[:-1] + ["Inv_PopitemWorks"], emit=False, **kw), 2, None, None))
+            jobs.append(("mutation/" + sw, "MC_AyContainer",
+                         cfg_container({sw}, invariants=PROP_INVS[:-1] + ["Inv_PopitemWorks"], emit=False, **kw), 2, None, None))
         for m in ("SplitDropsSign", "JoinAlwaysDot"):
             jobs.append(("mutation/" + m, "MC_AyPath", cfg_path(m, 2, 3, False), 2, None, None))
         jobs.append(("path", "MC_AyPath", cfg_path("none", 3, 4 if quick else 5, True), 4, None, None))
-        if not quick:
-            jobs.append(("asis/simulate-L8", "MC_AyContainer",
-                         cfg_container(set(SWITCHES), invariants=[], emit=True, idx="IdxFull", ren="RenEdge", keys=["a", "b", "c", "_x"],
-                                       newkeys=["a", "z"], kinds=["S", "L", "D"], ops="AllOps", starts=[1, 3, 5, 6], tgt="both", maxlen=8,
-                                       upd="UpdFull"), 8, "num=6000", 10))
+
+        rec_box = {}
 
         def go(job):
             name, module, cfg, workers, sim, depth = job
+            if name == "trace":
+                rec = [ln for chunk in rec_async.get(timeout=tmo) for ln in chunk]
+                rec_box["rec"] = rec
+                return _tlc(module, cfg, name, workers, tmo, trace_file="\n".join(rec) + "\n")
             return _tlc(module, cfg, name, workers, tmo, simulate=sim, depth=depth, seed=(seed if sim else None))
 
-        # the big ones first
-        with ThreadPoolExecutor(max_workers=4 if quick else 3) as ex:
-            results = list(ex.map(go, jobs))
-        byname = {r["name"]: r for r in results}
+        byname, replays = {}, {}
+        with ThreadPoolExecutor(max_workers=4) as ex:
+            futs = [ex.submit(go, j) for j in jobs]
+            for fu in as_completed(futs):
+                r = fu.result()
+                byname[r["name"]] = r
+                if r["name"].startswith("asis/"):
+                    # direction A starts as soon as a universe is enumerated
+                    lines = emit_lines(r["out"])
+                    r["out"] = r["out"][-3000:]
+                    if r["name"] == "asis/simulate-L8":
+                        lines = list(dict.fromkeys(lines))
+                    elif len(lines) != r["distinct"] - 1:
+                        raise tlc.TLCError(f"{r['name']}: {len(lines)} behaviours printed for {r['distinct']} states")
+                    replays[r["name"][5:]] = replay_start(lines, pool)
+                elif r["name"] == "path":
+                    plines = emit_lines(r["out"])
+                    step = 1000
+                    replays["path"] = (plines, pool.map_async(_path_chunk, [plines[i:i + step] for i in range(0, len(plines), step)]))
         t_tlc = time.time() - t0
 
         # ---------------- judge the TLC results
@@ -950,9 +1019,8 @@ def run(prop, tier, seed, replay, keep):
                 raise tlc.TLCError(f"intended / as-is runs explored different numbers of behaviours on {name}: {ri['distinct']} / {ra['distinct']}")
         for sw, invs, kw in MUTATIONS:
             r = byname["mutation/" + sw]
-            ok = bool(r["violated"]) and set(r["violated"]) <= set(invs)
-            cov["mutations"].append({"switch": sw, "refuted": bool(r["violated"]), "violated": r["violated"], "expected_one_of": invs,
-                                     "states": r["distinct"]})
+            ok = bool(r["violated"]) and set(r["violated"]) <= (set(PROP_INVS[:-1]) if sw != "PopitemBroken" else {"Inv_PopitemWorks"})
+            cov["mutations"].append({"switch": sw, "refuted": bool(r["violated"]), "violated": r["violated"], "states": r["distinct"]})
             if not ok:
                 raise tlc.TLCError(f"mutation cfg {sw} was not refuted as expected: {r['violated']}")
         for m in ("SplitDropsSign", "JoinAlwaysDot"):
@@ -961,17 +1029,11 @@ def run(prop, tier, seed, replay, keep):
             if not r["violated"]:
                 raise tlc.TLCError(f"path mutation {m} was not refuted")
 
-        # ---------------- direction A: replay every behaviour
-        t1 = time.time()
+        # ---------------- direction A: every behaviour replayed
+        popitem_agree = 0
         for name, kw in U + ([("simulate-L8", None)] if not quick else []):
             ra = byname["asis/" + name]
-            lines = emit_lines(ra["out"])
-            if name == "simulate-L8":
-                lines = list(dict.fromkeys(lines))
-            elif len(lines) != ra["distinct"] - 1:
-                raise tlc.TLCError(f"{name}: {len(lines)} behaviours printed for {ra['distinct']} states")
-            ra["out"] = ""
-            agg = replay_all(lines, pool)
+            agg = replay_finish(replays[name], tmo)
             bad = minimal_bad(agg["bad"])
             nv = nd = 0
             for status, st, ops, info in bad:
@@ -985,78 +1047,74 @@ def run(prop, tier, seed, replay, keep):
                     if nd <= 3:
                         print("DRIFT", name, json.dumps({"calls": describe(agg["starts"][st], ops), **info})[:1500])
             drift += nd
+            popitem_agree += agg["popitem_agree"]
             for f, (cnt, wit) in agg["knownf"].items():
                 slot = known_hits.setdefault(f, [0, None])
                 slot[0] += cnt
                 if wit and (slot[1] is None or len(wit["ops"]) < len(slot[1]["ops"])):
                     slot[1] = dict(wit, start=agg["starts"][wit["st"]])
             ri = byname.get("intended/" + name)
+            nstates = ra["distinct"] or agg["n"]
             cov["configs"].append({"universe": name, "alphabet": kw, "behaviours": agg["n"], "operations_replayed": agg["steps"],
-                                   "states": ra["distinct"], "transitions": ra["generated"],
+                                   "states": nstates, "transitions": ra["generated"] or agg["n"],
                                    "states_intended_run": ri["distinct"] if ri else 0,
                                    "agree": agg["ok"], "explained_by_known_deviation": agg["known"], "violations": nv, "drift": nd,
+                                   "shadowed_by_an_earlier_disagreement": len(agg["bad"]) - len(bad),
                                    "tlc_wall_s": round(ra["wall"], 1), "exhaustive": name != "simulate-L8"})
-            cov["states"] += ra["distinct"] + (ri["distinct"] if ri else 0)
-            cov["transitions"] += ra["generated"] + (ri["generated"] if ri else 0)
+            cov["states"] += nstates + (ri["distinct"] if ri else 0)
+            cov["transitions"] += (ra["generated"] or agg["n"]) + (ri["generated"] if ri else 0)
             cov["traces_validated_against_impl"] += agg["n"]
             cov["evaluations"] += agg["n"]
             cov["distinct_nontrivial"] += agg["nontrivial"]
             for smp in agg["samples"][:1]:
                 if len(cov["samples"]) < 6:
                     cov["samples"].append({"universe": name, "calls": describe(smp["start"], smp["ops"]), "state_after": smp["state_after"]})
-        # paths
+        # NodePath
         rp = byname["path"]
         if rp["violated"]:
             raise tlc.TLCError("the NodePath model violates its round trip: " + rp["out"][-2000:])
-        plines = emit_lines(rp["out"])
+        plines, pres = replays["path"]
         pbad, pn = [], 0
-        step = 2000
-        for n, b in pool.imap_unordered(_path_chunk, [plines[i:i + step] for i in range(0, len(plines), step)]):
+        for n, b in pres.get(timeout=tmo):
             pn += n
             pbad.extend(b)
-        for b in pbad[:10]:
-            case = next(json.loads(ln) for ln in plines if "".join(json.loads(ln)["x"]) == b.get("text", b.get("expected_text", "")) and json.loads(ln)["kind"] == b["kind"])
-            if b["what"] == "roundtrip" or (b["what"] == "split" and b["expected_ok"] and b["kind"] == "path"):
-                violations.append(write_replay("path", dict(case=case, text="".join(case["x"]), **b)))
+        if pn != rp["distinct"] - 1:
+            raise tlc.TLCError(f"path: {pn} cases replayed for {rp['distinct']} states")
+        for b in pbad:
+            # the property is the round trip of a path of words / indices; a join or split detail on which code and
+            # model differ while the round trip holds is drift
+            if b["what"] == "roundtrip":
+                if len(violations) < 25:
+                    violations.append(write_replay("path", dict(text="".join(b["case"]["x"]), **b)))
             else:
                 drift += 1
-                print("DRIFT path", json.dumps(b)[:600])
+                if drift <= 3:
+                    print("DRIFT path", json.dumps(b)[:600])
         cov["configs"].append({"universe": "nodepath", "paths_and_texts": pn, "states": rp["distinct"], "transitions": rp["generated"],
                                "disagreements": len(pbad)})
         cov["states"] += rp["distinct"]
         cov["transitions"] += rp["generated"]
         cov["traces_validated_against_impl"] += pn
         cov["evaluations"] += pn
-        cov["samples"].append({"universe": "nodepath", "text": "".join(json.loads(plines[len(plines) // 2])["x"]),
-                               "case": json.loads(plines[len(plines) // 2])})
-        t_replay = time.time() - t1
+        cov["samples"].append({"universe": "nodepath", "case": json.loads(plines[len(plines) // 2])})
 
-        # ---------------- direction B: TLC judges the recorded traces
-        t2 = time.time()
-        rec = [ln for chunk in rec_async.get(timeout=tmo) for ln in chunk]
-        wd = tlc.workdir("C17_trace")
-        try:
-            tf = os.path.join(wd, "traces.ndjson")
-            with open(tf, "w") as f:
-                f.write("\n".join(rec) + "\n")
-            rt = tlc.run("Trace_AyContainer", cfg_trace(), wd, workers=16, timeout=tmo, env={"TRACE_FILE": tf}, heap="8g")
-        finally:
-            if not keep:
-                tlc.cleanup(wd)
+        # ---------------- direction B: TLC's verdicts on the recorded traces
+        rt, rec = byname["trace"], rec_box["rec"]
         verdicts = {v["trace"]: v for v in tlc.json_prints(rt["out"], marker="trace")}
         if len(verdicts) != len(rec):
             raise tlc.TLCError(f"trace validation: {len(verdicts)} verdicts for {len(rec)} traces\n" + rt["out"][-3000:])
         accepted = explained = tdrift = tviol = steps = pathbad = 0
+        finals = set()
         for ln in rec:
             tr = json.loads(ln)
             v = verdicts[tr["tid"]]
             steps += len(tr["ev"])
             pathbad += v["pathbad"]
+            finals.add(json.dumps(tr["ev"][-1]["s"]))
             if v["viol"]:
                 tviol += 1
                 k = v["viol"]
-                ops = [[e["op"]["op"], e["op"]["t"], e["op"]["i"], e["op"]["i2"], e["op"]["key"], e["op"]["key2"], e["op"]["flag"],
-                        [[z["t"], z["n"], z["k"]] for z in e["op"]["vals"]]] for e in tr["ev"][:k]]
+                ops = _ops_of_trace(tr, k)
                 if len(violations) < 25:
                     violations.append(write_replay("trace", dict(start=tr["start"], ops=ops, calls=describe(tr["start"], ops), seed=tr["seed"],
                                                                  broken=tr["ev"][k - 1]["rb"], observed=tr["ev"][k - 1]["s"],
@@ -1082,13 +1140,9 @@ def run(prop, tier, seed, replay, keep):
         cov["transitions"] += rt["generated"]
         cov["traces_validated_against_impl"] += len(rec)
         cov["evaluations"] += len(rec)
-        cov["distinct_nontrivial"] += len({json.dumps(json.loads(ln)["ev"][-1]["s"]) for ln in rec})
+        cov["distinct_nontrivial"] += len(finals)
         tr0 = json.loads(rec[0])
-        cov["samples"].append({"universe": "recorded-traces", "seed": tr0["seed"],
-                               "calls": describe(tr0["start"], [[e["op"]["op"], e["op"]["t"], e["op"]["i"], e["op"]["i2"], e["op"]["key"],
-                                                                  e["op"]["key2"], e["op"]["flag"], [[z["t"], z["n"], z["k"]] for z in e["op"]["vals"]]]
-                                                                 for e in tr0["ev"]])})
-        t_trace = time.time() - t2
+        cov["samples"].append({"universe": "recorded-traces", "seed": tr0["seed"], "calls": describe(tr0["start"], _ops_of_trace(tr0, len(tr0["ev"])))})
     finally:
         pool.terminate()
         pool.join()
@@ -1096,23 +1150,27 @@ def run(prop, tier, seed, replay, keep):
     known_lines = []
     cov["known_findings_hit"] = []
     for sw in SWITCHES:
+        if sw == "PopitemBroken":
+            continue
         if sw in known_hits:
             fid, what = FINDINGS[sw]
             cnt, wit = known_hits[sw]
-            known_lines.append(f"KNOWN-FINDING: property={PROP} {fid} {what} [deviation switch {sw}; {cnt} behaviours]")
+            known_lines.append(f"KNOWN-FINDING: property={PROP} {fid} {what} [deviation switch {sw}; explains {cnt} behaviours whose state breaks the property]")
             cov["known_findings_hit"].append({"id": fid, "switch": sw, "behaviours": cnt,
                                               "witness": describe(wit["start"], wit["ops"]) if wit else None,
                                               "broken": wit.get("broken") if wit else None})
-    # the popitem defect breaks no invariant (both views stay as they were): it is confirmed by the as-is machine agreeing
-    # with the library (TypeError, state unchanged) on every behaviour containing popitem, and by its refuted mutation cfg
-    if "PopitemBroken" not in known_hits and not violations and any(c.get("universe", "").startswith("dict") for c in cov["configs"]):
+    # the popitem defect breaks no invariant (both views stay as they were): it is confirmed by the library agreeing with the
+    # as-is machine (TypeError, state unchanged) on every behaviour that ends in popitem, and by its refuted mutation cfg
+    if popitem_agree and "PopitemBroken" in ON:
         fid, what = FINDINGS["PopitemBroken"]
-        known_lines.append(f"KNOWN-FINDING: property={PROP} {fid} {what} [deviation switch PopitemBroken; library agrees with the as-is machine]")
-        cov["known_findings_hit"].append({"id": fid, "switch": "PopitemBroken", "witness": ["x = ConfigNode({'a': 1})", "x.popitem()"]})
+        known_lines.append(f"KNOWN-FINDING: property={PROP} {fid} {what} [deviation switch PopitemBroken; library = as-is machine on {popitem_agree} behaviours ending in popitem()]")
+        cov["known_findings_hit"].append({"id": fid, "switch": "PopitemBroken", "behaviours": popitem_agree,
+                                          "witness": ["x = ConfigNode({'a': 1})", "x.popitem()"], "broken": []})
+    cov["deviation_switches_on"] = ON
     cov["rule"] = ("behaviours = every operation sequence TLC enumerates per universe (history variable), distinct by construction; "
                    "non-trivial = non-empty sequence whose last operation returned (did not raise); recorded traces: distinct final states")
-    cov["wall"] = {"tlc_s": round(t_tlc, 1), "replay_s": round(t_replay, 1), "trace_validation_s": round(t_trace, 1)}
+    cov["wall"] = {"tlc_and_replay_pipeline_s": round(t_tlc, 1), "total_s": round(time.time() - t0, 1)}
     summary = {"behaviours": sum(c.get("behaviours", 0) for c in cov["configs"]), "traces": ntr, "states": cov["states"],
-               "tlc_s": round(t_tlc, 1), "replay_s": round(t_replay, 1), "trace_s": round(t_trace, 1)}
+               "tlc_s": round(t_tlc, 1)}
     return {"violations": violations, "known_lines": known_lines, "drift": drift, "level": "model_checking", "coverage": cov,
             "assumptions": ASSUMPTIONS, "summary": summary}
